@@ -233,7 +233,7 @@ def run(ctx):
                     e = notification(rng, outcome, shape, cfg[1])
                     one(ctx, pf, cfg, json.dumps(e), "alone")
         # every batch position
-        for rep in range(ctx.pick(25, 2500)):
+        for rep in range(ctx.pick(80, 2500)):
             size = rng.randint(1, 6)
             batch = []
             for i in range(size):
